@@ -80,18 +80,17 @@ Proof. exact (resultant_R row w). Qed.
 Theorem C19_mean_length cols a w : length (dir_mean ROps cols a w) = length a.
 Proof. exact (mean_length cols a w). Qed.
 
-(* one-column branch, exactly as the code behaves: the column is returned as is,
-   not wrapped and without looking at the weight *)
-Theorem C19_mean_single_column a w : dir_mean ROps 1 a w = map (fun row => nth 0 row 0) a.
+(* one-column branch, exactly as the code behaves: the column, wrapped, without looking at the weight *)
+Theorem C19_mean_single_column a w : dir_mean ROps 1 a w = map (fun row => wrap ROps (nth 0 row 0)) a.
 Proof. exact (mean_single_column a w). Qed.
 
 Theorem C19_mean_shift cols a a' w : cols <> 1%nat -> Forall2 (Forall2 cong2pi) a a' ->
   dir_mean ROps cols a' w = dir_mean ROps cols a w.
 Proof. exact (mean_shift_invariant cols a a' w). Qed.
 
-(* in the one-column branch the result follows the shift (congruent, not equal) *)
+(* the one-column branch is shift invariant as well *)
 Theorem C19_mean_shift_single_column a a' w : Forall2 (Forall2 cong2pi) a a' ->
-  Forall2 cong2pi (dir_mean ROps 1 a w) (dir_mean ROps 1 a' w).
+  dir_mean ROps 1 a' w = dir_mean ROps 1 a w.
 Proof. exact (mean_single_column_shift a a' w). Qed.
 
 (* common rotation d of all samples of a row with non-zero resultant *)
@@ -114,9 +113,9 @@ Theorem C19_mean_all_equal_in_range a n w : 0 < wtot n w -> - PI < a <= PI ->
   mean_row ROps (repeat a n) w = a.
 Proof. exact (mean_row_all_equal_in_range a n w). Qed.
 
-(* one-column branch: returns a itself for every real a *)
-Theorem C19_mean_all_equal_single_column (a : R) w : dir_mean ROps 1 [[a]] w = [a].
-Proof. reflexivity. Qed.
+(* one column, positive weight: the result is the argument of the resultant, i.e. wrap a *)
+Theorem C19_mean_all_equal_single_column (a w : R) : 0 < w -> dir_mean ROps 1 [[a]] [w] = [mean_row ROps [a] [w]].
+Proof. exact (single_column_positive a w). Qed.
 
 (* positive weights, samples within an arc shorter than a half turn *)
 Theorem C19_mean_in_arc row w lo hi :
@@ -137,15 +136,11 @@ Theorem C19_mean_in_arc_matrix cols a w arcs : cols <> 1%nat -> length w = cols 
   Forall2 (fun m lh => exists k : Z, fst lh <= m + 2 * IZR k * PI <= snd lh) (dir_mean ROps cols a w) arcs.
 Proof. exact (mean_in_arc_matrix cols a w arcs). Qed.
 
-(* ---- the one-column branch against the property's literal clauses: with one column the result is
-   (i) not the argument of the weighted resultant, even for a positive weight (3 PI is returned, the argument is PI),
-   (ii) affected by a 2 PI shift of the sample, (iii) independent of the weight (a negative weight turns the
-   resultant by a half turn).  All three hold only modulo 2 PI / for a positive weight. *)
-Theorem C19_mean_single_column_literal_refuted :
-  (exists a w, 0 < w /\ dir_mean ROps 1 [[a]] [w] <> [mean_row ROps [a] [w]]) /\
-  (exists a w, 0 < w /\ dir_mean ROps 1 [[a + 2 * IZR 1 * PI]] [w] <> dir_mean ROps 1 [[a]] [w]) /\
-  (exists a w, w < 0 /\ ~ cong2pi (mean_row ROps [a] [w]) (nth 0 (dir_mean ROps 1 [[a]] [w]) 0)).
-Proof. exact single_column_literal_refuted. Qed.
+(* ---- a single column ignores its weight: a negative weight (outside the property's weight classes)
+   turns the resultant by a half turn, the result does not move *)
+Theorem C19_mean_single_column_weight_ignored_refuted :
+  exists a w, w < 0 /\ ~ cong2pi (mean_row ROps [a] [w]) (nth 0 (dir_mean ROps 1 [[a]] [w]) 0).
+Proof. exact single_column_weight_ignored_refuted. Qed.
 
 (* non-vacuity *)
 Example C19_in_arc_premises_satisfiable :
@@ -185,4 +180,4 @@ Print Assumptions C19_mean_all_equal_single_column.
 Print Assumptions C19_mean_in_arc.
 Print Assumptions C19_mean_rotation_matrix.
 Print Assumptions C19_mean_in_arc_matrix.
-Print Assumptions C19_mean_single_column_literal_refuted.
+Print Assumptions C19_mean_single_column_weight_ignored_refuted.
